@@ -56,6 +56,24 @@ CHECKS = {
         text="held on the executions produced: soups of 2-25 ULT/external lockers with 5-90% writes on random configurations "
              "and scripted phases where a second reader must enter while the first still holds the lock",
         ref="DESIGN.md §5 C10"),
+    "C07": dict(
+        technique="runtime monitoring: API-boundary histories with unique push instances and global call/return tickets, "
+                  "offline linearizability conditions (fresh/repeat/loss/FIFO order/empty pops), sequential reference-deque "
+                  "phase, quiescent size checks, delay injection, ASan/TSan builds",
+        category="exploration",
+        text="held on the histories produced: every pool kind x access mode with the permitted numbers of producer/consumer "
+             "OS threads, few tokens so the pool flips empty/non-empty constantly, all pool operations incl. batches, blocking "
+             "pops and remove; each history checked offline with sound linearizability conditions",
+        ref="DESIGN.md §5 C07"),
+    "C19": dict(
+        technique="runtime monitoring under a virtual clock: scripted waiter-queue shapes compared with a reference queue "
+                  "model after every clock/signal step, timed-wait soups with credit accounting, pool histories with blocking "
+                  "pops, ASan on departed waiters' stack nodes",
+        category="exploration",
+        text="held on the executions produced: thousands of queue shapes (timed-out waiter at head/middle/tail, behind untimed "
+             "ones, ULT and external) where exactly the expired waiters time out, later signals wake exactly one remaining "
+             "waiter and broadcast wakes the rest; timed waits racing with signals; blocking pool pops racing with pushes",
+        ref="DESIGN.md §5 C19"),
 }
 
 
